@@ -126,6 +126,79 @@ class Ctx:
         self.results.append(r)
         return r
 
+    def run_sanitized(self, binary, sub, extra_args=(), env_extra=None, timeout=3600, tag=None, kind="asan", wrapper=None):
+        """Run a harness step under a sanitizer (instrumented binary) or a wrapper tool (valgrind).
+        A sanitizer/tool report or a death by signal is a violation; the step's own result file (if the
+        process got that far) is merged as usual."""
+        tag = tag or (sub + "-" + kind)
+        out = os.path.join(self.run_dir, "result-%s-%d.json" % (tag.replace("/", "_"), len(self.results)))
+        env = self.base_env()
+        env["VH_RUN_DIR"] = self.run_dir
+        env["VH_SELF"] = binary
+        if env_extra:
+            env.update(env_extra)
+        cmd = (wrapper or []) + [binary, sub, "--tier", self.tier, "--seed", str(self.seed), "--out", out] + list(extra_args)
+        t = time.time()
+        try:
+            p = subprocess.run(cmd, env=env, stdout=subprocess.PIPE, stderr=subprocess.PIPE, text=True, timeout=timeout, errors="replace")
+        except subprocess.TimeoutExpired:
+            self.inconclusive.append("watchdog: %s did not finish in %ds" % (tag, timeout))
+            return None
+        err = p.stderr
+        reports = []
+        lines = err.splitlines()
+        for i, l in enumerate(lines):
+            if "ERROR: AddressSanitizer" in l or "WARNING: ThreadSanitizer" in l or "ERROR: LeakSanitizer" in l or "Invalid read" in l or "Invalid write" in l or "uninitialised value" in l.lower():
+                reports.append("\n".join(lines[i:i + 40]))
+        res = {"_step": tag, "evaluations": 0, "strata_all": [], "violations": [], "samples": [], "counters": {}, "notes": {}}
+        ok_file = os.path.exists(out)
+        if ok_file:
+            res = json.load(open(out))
+            res["_step"] = tag
+        res["_secs"] = round(time.time() - t, 1)
+        res.setdefault("notes", {})["%s_reports" % kind] = len(reports)
+        res.setdefault("counters", {})["%s_runs" % kind] = 1
+        import re
+        if kind == "tsan":
+            # attribution rule (DESIGN.md section 0): a race report counts only if one of its stacks runs through
+            # repository code; reports entirely inside dependencies (sled's Arc drop with a stand-alone fence,
+            # rayon/crossbeam internals) are counted and listed, not alarmed
+            mine = [r for r in reports if "/repo/rln/src/" in r or "/repo/utils/src/" in r]
+            res["notes"]["tsan_reports_total"] = len(reports)
+            res["notes"]["tsan_reports_attributed_to_repo"] = len(mine)
+            res["notes"]["tsan_reports_in_dependencies_only"] = [r.splitlines()[0][:120] for r in reports if r not in mine][:10]
+            import re as _re
+            ms = _re.findall(r"Matched (\d+) suppressions", err)
+            res["notes"]["tsan_suppressions_matched"] = ms[-1] if ms else "0"
+            reports = mine
+        for rtxt in reports[:5]:
+            first = rtxt.splitlines()[0]
+            m = re.search(r"(AddressSanitizer|ThreadSanitizer|LeakSanitizer): ([a-zA-Z\- ]+)", first)
+            what = (m.group(2).strip().replace(" ", "-") if m else first.strip()[:40].replace(" ", "-"))
+            frame = ""
+            for fl in rtxt.splitlines():
+                mm = re.search(r"(/repo/[^ :]+|harness/src/[^ :]+)", fl)
+                if mm:
+                    frame = mm.group(1).split("/src/")[-1]
+                    break
+            res["violations"].append({"sig": "%s:%s:%s" % (kind, what, frame), "count": 1, "details": [{"report": rtxt[:3000]}]})
+        if p.returncode != 0 and not reports:
+            last = ""
+            cl = os.path.join(self.run_dir, "c11.calls.log")
+            if os.path.exists(cl):
+                try:
+                    last = open(cl, errors="replace").read().splitlines()[-1]
+                except Exception:
+                    pass
+            if p.returncode < 0 or p.returncode in (134, 139):
+                res["violations"].append({"sig": "%s:process-died:signal" % kind, "count": 1,
+                                          "details": [{"returncode": p.returncode, "last_logged_call": last, "stderr_tail": err[-1500:]}]})
+            elif not ok_file:
+                self.inconclusive.append("%s step %s exited with %s: %s" % (kind, tag, p.returncode, err[-500:]))
+                return None
+        self.results.append(res)
+        return res
+
     def run_py(self, script, args, tag, timeout=3600):
         out = os.path.join(self.run_dir, "result-%s-%d.json" % (tag, len(self.results)))
         cmd = [sys.executable, os.path.join(self.verif, "oracles", script)] + [a.replace("{out}", out) for a in args]
